@@ -130,7 +130,28 @@ def run_text(arg):
             got, exc = [], type(e).__name__
         events.append({"prop": "C17", "lang": lang, "origin": origin, "base": meas_json(base), "script": tl, "marked": marked, "got": meas_json(got), "exc": exc,
                        "_text": text if len(text) < 3000 else None, "_new": new if len(new) < 3000 else None, "_concrete": concrete})
-    return {"events": events, "unstable": unstable, "unbound": unbound, "origin": origin, "functions": len(base)}
+    # clause 1 alone for a function that ENCLOSES another: it is omitted, and nothing else is omitted with it (what happens to
+    # spans and lengths of the others is not stated for this case, only who is reported)
+    enclosing_bad = []
+    for i, m in enumerate(base):
+        nl = nlines[i]
+        if nl is None or nl not in doc.can_trail or sum(1 for x in nlines if x == nl) > 1 or sum(1 for o in base if o[0] == m[0]) > 1:
+            continue
+        if not any(j != i and (m[1], m[2]) <= (o[1], o[2]) and (o[3], o[4]) <= (m[3], m[4]) for j, o in enumerate(base)):
+            continue
+        new = doc.apply([("mark", nl, "  " + MARKER_VARIANTS[fam][0])])
+        if not doc.stable(new):
+            continue
+        try:
+            got = analyse(lang, new)
+        except Exception as e:  # noqa: BLE001
+            enclosing_bad.append({"marked": m[0], "line": nl, "exc": type(e).__name__, "text": new if len(new) < 3000 else None})
+            break
+        want = sorted(o[0] for j, o in enumerate(base) if j != i)
+        if sorted(g[0] for g in got) != want:
+            enclosing_bad.append({"marked": m[0], "line": nl, "reported": sorted(g[0] for g in got), "expected": want, "text": new if len(new) < 3000 else None})
+        break  # one enclosing function per text
+    return {"events": events, "unstable": unstable, "unbound": unbound, "origin": origin, "functions": len(base), "enclosing_bad": enclosing_bad}
 
 
 def run(tier: str) -> int:
@@ -156,6 +177,7 @@ def run(tier: str) -> int:
         jobs.append((lang, text, rng.sample(scripts, min(b["scripts_per_corpus"], len(scripts))), b["slots"], origin, rng.randrange(1 << 30)))
     res = pmap(run_text, jobs, timeout=900, chunk=1)
     events, unstable, unbound, skipped_base = [], 0, 0, []
+    n_enclosing = 0
     for job, r in zip(jobs, res):
         if r[0] != "ok":
             raise MachineryError(f"marker worker failed on {job[4]}: {r}")
@@ -166,6 +188,9 @@ def run(tier: str) -> int:
         unstable += o["unstable"]
         unbound += o["unbound"]
         events.extend(o["events"])
+        n_enclosing += 1 if "enclosing_bad" in o else 0
+        for bad in o.get("enclosing_bad", []):
+            rep.fail({"clause": "OmittedExactlyWhenMarked:EnclosingFunction", "language": job[0], "origin": o["origin"], "marked": bad["marked"]}, {"kind": "enclosing", "language": job[0], **bad})
     rejected = accept(wd, events, name="c17_trace")
     for k, clause in sorted(rejected.items()):
         ev = events[k]
@@ -197,6 +222,14 @@ def run(tier: str) -> int:
 def replay(path: str) -> int:
     case = json.loads(open(path).read())
     lang = case["language"]
+    if case.get("kind") == "enclosing":
+        got = guarded(lambda _: analyse(lang, case["text"]), None, 120)
+        names = sorted(g[0] for g in got[1]) if got[0] == "ok" else None
+        print("reported:", names, "expected:", case.get("expected"))
+        if names != case.get("expected"):
+            print(f"VIOLATION property={PROP} replay={path}")
+            return 1
+        return 0
     text = case.get("text") or {f"corpus/{p.parent.name}/{p.name}": t for l, p, t in corpus_files()}[case["origin"]]
     doc = Doc(lang, text)
     new = doc.apply([tuple(x) for x in case["script"]])
